@@ -25,11 +25,15 @@ from common import q_of_float as Q, r_of_float as R
 
 HEADER = """From Coq Require Import ZArith QArith List Bool Reals.
 From Interval Require Import Tactic.
-From WNTRV Require Import C05.Model.
+From Flocq Require Import Core.Raux.
+From WNTRV Require Import C05.Model C06.Model.
 Import ListNotations.
 Local Close Scope Q_scope.
 Local Open Scope Z_scope.
-Ltac solve_case := first [ vm_compute; reflexivity | interval with (i_prec 60) ].
+Ltac solve_case := match goal with
+  | |- backtrack _ _ _ _ = _ => unfold backtrack; apply Zfloor_imp; rewrite ?plus_IZR; split; interval with (i_prec 60)
+  | _ => first [ vm_compute; reflexivity | interval with (i_prec 60) ]
+  end.
 """
 TACTIC = "solve_case"
 KIND = {"Pipe": "PipeK", "Pump": "PumpK", "Valve": "ValveK"}
@@ -156,6 +160,7 @@ class Tracer:
         self.idx = {n: i for i, n in enumerate(self.links)}
         self.trials, self.saved, self.pending = [], {}, None
         self.unmodelled = 0
+        self.tl_evals = []
 
     def snap(self):
         out = []
@@ -237,12 +242,26 @@ class Tracer:
             tr.o_save(wn, node_res, link_res)
             tr.saved[int(wn.sim_time)] = {"links": tr.snap(), "trial": len(tr.trials) - 1}
         W._run_postsolve_controls, W._run_feasibility_controls, H.save_results = post, feas, save
+        TL = self.wntr.network.controls.TankLevelCondition
+        self.o_tl = TL.evaluate
+
+        def tl_eval(cond):
+            tank = cond._source_obj
+            last, cur, q = cond._last_value, getattr(tank, cond._source_attr), tank.demand
+            r = tr.o_tl(cond)
+            if tank.vol_curve is None and q is not None and len(tr.tl_evals) < 4000:
+                tr.tl_evals.append({"rel": cond._relation.symbol if hasattr(cond._relation, "symbol") else str(cond._relation), "thr": float(cond._threshold),
+                                    "last": float(last), "cur": float(cur), "q": float(q), "d": float(tank.diameter), "state": bool(r),
+                                    "backtrack": int(cond._backtrack), "time": int(tr.wn.sim_time)})
+            return r
+        TL.evaluate = tl_eval
         return self
 
     def __exit__(self, *a):
         W = self.wntr.sim.core.WNTRSimulator
         W._run_postsolve_controls, W._run_feasibility_controls = self.o_post, self.o_feas
         self.wntr.sim.hydraulics.save_results = self.o_save
+        self.wntr.network.controls.TankLevelCondition.evaluate = self.o_tl
 
 
 def coq_state(s):
@@ -383,6 +402,27 @@ def check(run, replay=None):
                     t, c["node"], c["nattr"], c["op"], c["thr"], cur, c["link"], c["attr"], got, want),
                     input={"spec": spec, "control": c, "time": t, "reported_value": cur, "link_state": {"user": user, "internal": internal}})
                 break
+        # (2b) TankLevelCondition.evaluate as the code ran it (pre- and post-solve): truth value = tank_cond on the value it read, backtrack = the
+        #      model's whole-second floor when the threshold has just been crossed with a non-zero tank flow, 0 otherwise
+        import math as _m
+        evs = tr.tl_evals if thorough else tr.tl_evals[:: max(1, len(tr.tl_evals) // 40)]
+        for e in evs:
+            sym = {">=": "Ge", "<=": "Le", ">": "Gt", "<": "Lt"}.get(e["rel"])
+            if sym is None or abs(e["cur"] - e["thr"]) < MARGIN or abs(e["last"] - e["thr"]) < MARGIN:
+                continue
+            add("tank_cond %s %s %s = %s" % (sym, Q(e["cur"]), Q(e["thr"]), "true" if e["state"] else "false"),
+                {"check": "TankLevelCondition truth value", "spec": spec, "evaluation": e}, e["state"])
+            ge = sym in ("Ge", "Gt")
+            crossed = e["state"] and not ((e["last"] >= e["thr"]) if ge else (e["last"] <= e["thr"]))
+            if crossed and e["q"] != 0.0:
+                x = (e["cur"] - e["thr"]) * _m.pi / 4.0 * e["d"] ** 2 / e["q"]
+                if abs(x - round(x)) < 1e-6:
+                    continue           # the floor of a value this close to an integer depends on binary64 rounding
+                add("backtrack %s %s %s %s = (%d)%%Z" % (R(e["cur"]), R(e["thr"]), R(e["d"]), R(e["q"]), e["backtrack"]),
+                    {"check": "TankLevelCondition backtrack", "spec": spec, "evaluation": e}, True)
+            elif e["backtrack"] != 0:
+                run.violation("backtrack_without_crossing", "TankLevelCondition left backtrack %d although the threshold was not just crossed" % e["backtrack"],
+                              input={"spec": spec, "evaluation": e})
         # (3) thresholds are met by a partial step ---------------------------------------------------------------------------------------
         if spec["options"]["report_timestep"] == "ALL":
             for k, c in enumerate(spec["cond"]):
@@ -408,6 +448,8 @@ def check(run, replay=None):
             m = meta[cid]
             if m["check"] == "post-solve pass vs model":
                 run.tie_broken("correspondence: a traced post-solve pass differs from C05.Model.after_solve", str({k: v for k, v in m.items() if k != "spec"})[:2000])
+            elif m["check"].startswith("TankLevelCondition"):
+                run.violation("tank_level_condition_" + m["check"].split()[-1], "TankLevelCondition.evaluate differs from the model: %s" % m["evaluation"], input=m)
             elif m["check"] == "condition on the reported value":
                 run.violation("condition_evaluated_off_the_reported_state", "t=%d: the implementation %s control %s although the reported value is %.6g" % (
                     m["time"], "triggered" if m["impl_triggered"] else "did not trigger", m["control"], m["reported"]), input=m)
